@@ -95,6 +95,29 @@ theorem lowerTx_noPanic (s : Scope) : NoPanic (lowerTx s) := by
   unfold lowerTx
   np_low hE hO hI
 
+/-! ### chain-specific directives (`cardano.rs`) -/
+
+theorem lowerDirective_noPanic (s : Scope) (fuel : Nat) (ctx : Ctx) (w : String) (fs : List (String × LExpr)) :
+    NoPanic (lowerDirective s fuel ctx w fs) := by
+  unfold lowerDirective
+  simp only
+  split
+  · split
+    · exact np_lerr _
+    · exact np_lerr _
+    · refine np_bind (lowerE_noPanic _ _ _ _) fun _ => np_bind (lowerE_noPanic _ _ _ _) fun _ => np_bind ?_ fun _ => np_ok _
+      split
+      · exact lowerE_noPanic _ _ _ _
+      · exact np_ok _
+  · split
+    · exact np_lerr _
+    · refine np_bind (np_mapMO (fun kv => np_bind (lowerE_noPanic _ _ _ _) fun _ => np_ok _) _) fun _ => np_ok _
+
+theorem lowerTxFull_noPanic (s : Scope) : NoPanic (lowerTxFull s) := by
+  unfold lowerTxFull
+  exact np_bind (lowerTx_noPanic s) fun _ =>
+    np_bind (np_mapMO (fun d => lowerDirective_noPanic _ _ _ _ _) _) fun _ => np_ok _
+
 /-! ### the chaining -/
 
 theorem trial_nil (p : Program) : trial p [] = .ok [] := rfl
@@ -213,7 +236,7 @@ theorem trial_noPanic (p : Program) (txs : List TxDef) : NoPanic (trial p txs) :
       | ok ds => exact np_ok _
       | err x => exact np_err _
       | panic s' => exact absurd ht (ih s')
-    | panic s' => exact absurd h (lowerTx_noPanic _ s')
+    | panic s' => exact absurd h (lowerTxFull_noPanic _ s')
 
 theorem trial_isOk (p : Program) (txs : List TxDef) : ∃ ds, trial p txs = .ok ds := by
   induction txs with
@@ -224,7 +247,7 @@ theorem trial_isOk (p : Program) (txs : List TxDef) : ∃ ds, trial p txs = .ok 
     cases h : lowerOf p tx with
     | ok t => exact ⟨ds, hds⟩
     | err e => simp only [hds]; exact ⟨_, rfl⟩
-    | panic s' => exact absurd h (lowerTx_noPanic _ s')
+    | panic s' => exact absurd h (lowerTxFull_noPanic _ s')
 
 /-- `analyze` never panics and always returns a report. -/
 theorem analyze_total (core : Program → List Diag) (p : Program) : ∃ ds, analyze core p = .ok ds := by
@@ -296,12 +319,12 @@ def exProg (amount : LExpr) : Program :=
 
 /-- `Ada(q)` is accepted … -/
 example : analyze (fun _ => []) (exProg (.node (.call "Ada") [.leaf (.id "q")])) = .ok [] := by
-  simp [analyze, trial, trialWith, lowerOf, lowerTx, exProg, exTx, lowerOpt, lowerE, lowerFuel, mapMO, resolve, resolveOuter,
+  simp [analyze, trial, trialWith, lowerOf, lowerTxFull, lowerTx, exProg, exTx, lowerOpt, lowerE, lowerFuel, mapMO, resolve, resolveOuter,
     indexOfOutput, indexOfOutput.go, lastWith, Ctx.enterAddress, Ctx.enterAsset, paramValue, lowerTy, none']
 /-- … `Ada()` passes name resolution and is rejected by the trial lowering. -/
 example : analyze (fun _ => []) (exProg (.node (.call "Ada") [])) =
     .ok [.notLowerable "t" "lower:InvalidAst:arity"] := by
-  simp [analyze, trial, trialWith, lowerOf, lowerTx, exProg, exTx, lowerOpt, lowerE, lowerFuel, mapMO, resolve, resolveOuter,
+  simp [analyze, trial, trialWith, lowerOf, lowerTxFull, lowerTx, exProg, exTx, lowerOpt, lowerE, lowerFuel, mapMO, resolve, resolveOuter,
     indexOfOutput, indexOfOutput.go, lastWith, Ctx.enterAddress, Ctx.enterAsset, paramValue, none', lerr]
   rfl
 
